@@ -52,6 +52,38 @@ def watchdog(seconds=120):
         signal.signal(signal.SIGALRM, old)
 
 
+def in_child(fn, *args):
+    """run fn(*args) in a forked child and return its (picklable) result: whatever the call leaves
+    behind in the process - blocked threads, held locks - dies with the child"""
+    import pickle
+    r, w = os.pipe()
+    pid = os.fork()
+    if pid == 0:
+        code = 0
+        try:
+            os.close(r)
+            try:
+                data = pickle.dumps(('ok', fn(*args)))
+            except BaseException:  # noqa: BLE001
+                data = pickle.dumps(('error', traceback.format_exc()))
+            with os.fdopen(w, 'wb') as f:
+                f.write(data)
+        except BaseException:  # noqa: BLE001
+            code = 3
+        finally:
+            os._exit(code)
+    os.close(w)
+    with os.fdopen(r, 'rb') as f:
+        data = f.read()
+    os.waitpid(pid, 0)
+    if not data:
+        raise RuntimeError('child process died without a result')
+    status, payload = pickle.loads(data)
+    if status != 'ok':
+        raise RuntimeError('in child process:\n' + payload)
+    return payload
+
+
 class Acc:
     """mergeable accumulator of what a shard covered"""
 
